@@ -446,17 +446,24 @@ class Tr:
         raise Unsupported('pattern %r against %r' % (pat, v))
 
     def match_arms(self, v, arms, env, k):
-        """match on a symbolic value: Ok/Err/Some/None constructors and enum/unit patterns"""
-        def leaf(x):
+        """match on a symbolic value: Ok/Err/Some/None constructors and enum/unit/literal patterns; a guarded arm
+        (`pat if cond => body`) becomes `if cond then body else <the remaining arms>`"""
+        def guarded(guard, env_g, body_code, rest):
+            if guard is None:
+                return body_code()
+            gv = self.pure_expr(guard, env_g, env_g.get('__impl'))
+            return 'if %s then %s else %s' % (self.text(gv), paren(body_code()), paren(rest()))
+
+        def leaf(x, arms=arms):
             # constructor known
             if isinstance(x, Ctor) and x.name in ('Ok', 'Err', 'Some', 'None'):
-                for pat, guard, body in arms:
-                    if guard is not None:
-                        raise Unsupported('match guard')
+                for idx, (pat, guard, body) in enumerate(arms):
+                    rest = lambda idx=idx: leaf(x, arms[idx + 1:])
                     if pat[0] == 'pwild':
-                        return self.ev(body, env, k)
+                        return guarded(guard, env, lambda: self.ev(body, env, k), rest)
                     if pat[0] == 'pvar':
-                        return self.ev(body, dict(env, **{pat[1]: x}), k)
+                        e2 = dict(env, **{pat[1]: x})
+                        return guarded(guard, e2, lambda: self.ev(body, e2, k), rest)
                     if pat[0] == 'pctor' and pat[1][-1] == x.name:
                         env2 = env
                         if pat[2]:
@@ -465,22 +472,34 @@ class Tr:
                             if r is None:
                                 continue
                             if callable(r):
-                                return r(lambda env3: self.ev(body, env3, k), lambda: self.match_arms(x, arms[arms.index((pat, guard, body)) + 1:], env, k))
+                                return r(lambda env3: guarded(guard, env3, lambda: self.ev(body, env3, k), rest), rest)
                             env2 = r
-                        return self.ev(body, env2, k)
+                        return guarded(guard, env2, lambda: self.ev(body, env2, k), rest)
                 raise Unsupported('no arm matches %s' % x.name)
             if isinstance(x, Pure):
                 # decide by the shape of the patterns what the scrutinee is
                 heads = [p[1][-1] for p, _, _ in arms if p[0] == 'pctor']
                 if any(h in ('Ok', 'Err') for h in heads):
-                    return self.on(self.as_result(x), leaf)
+                    return self.on(self.as_result(x), lambda y: leaf(y, arms))
                 if any(h in ('Some', 'None') for h in heads):
-                    return self.on(self.as_option(x), leaf)
+                    return self.on(self.as_option(x), lambda y: leaf(y, arms))
                 # enumeration / literal patterns on a pure value
+                if any(g is not None for _, g, _ in arms):
+                    # with guards: a chain of tests in the order of the arms
+                    pat, guard, body = arms[0]
+                    rest = lambda: leaf(x, arms[1:]) if len(arms) > 1 else 'Crash PkIndex'
+                    if pat[0] == 'plit':
+                        cond = '(%s =? %d)' % (x.text, pat[1])
+                        inner = guarded(guard, env, lambda: self.ev(body, env, k), rest)
+                        return 'if %s then %s else %s' % (cond, paren(inner), paren(rest()))
+                    if pat[0] == 'pwild':
+                        return guarded(guard, env, lambda: self.ev(body, env, k), rest)
+                    if pat[0] == 'pvar':
+                        e2 = dict(env, **{pat[1]: x})
+                        return guarded(guard, e2, lambda: self.ev(body, e2, k), rest)
+                    raise Unsupported('guarded pattern %r' % (pat,))
                 out = []
                 for pat, guard, body in arms:
-                    if guard is not None:
-                        raise Unsupported('match guard')
                     if pat[0] == 'plit':
                         out.append('| %d => %s' % (pat[1], self.ev(body, env, k)))
                     elif pat[0] == 'pwild':
